@@ -50,7 +50,7 @@ PROPS = {
     'C06': dict(title='Hold time negotiation, hold-timer expiry and keepalive cadence', live=True, lean=['CoreBGP.Props.C06', 'CoreBGP.Props.C02b', 'CoreBGP.Props.PathTieC06'],
         rule='live timing grid: (local, remote) hold in {(3,3),(3,0),(0,3),(0,0),(6,3),(3,9)} (thorough adds 9/30/90/65535 columns) x remote pattern {silent, KEEPALIVE-only, UPDATE-only, just-before-expiry, local WriteUpdate traffic} x direction, expiry in OpenConfirm; timing monitor on remote-side timestamps (no early expiry: safe direction; expiry by deadline + 1 s; send gaps <= hold/3 + 0.4 s; zero: no periodic KEEPALIVE, no expiry)',
         assumptions=['real-time bounds are observed with slack (scheduler latency is not proved): partial clause']),
-    'C13': dict(title='Only connections from configured peers to the configured address are served', live=True, lean=['CoreBGP.Props.C13', 'CoreBGP.Props.DecTieC13', 'CoreBGP.Props.PathTiePeer'],
+    'C13': dict(title='Only connections from configured peers to the configured address are served', live=True, lean=['CoreBGP.Props.C13', 'CoreBGP.Props.DecTieC13', 'CoreBGP.Props.PathTiePeer', 'CoreBGP.Props.PathTieC13'],
         rule='live admission grid: listener {specific, wildcard} x peer with/without local address x source {configured, other loopback address} x destination {configured, other} x peer state at arrival {idle, inbound in progress, Established, held down}; zero bytes + EOF vs OPEN judged from the trace, an unrelated Established session must stay alive'),
     'C01': dict(title='One Established session per peer; well-formed plugin callback history', l0=True, live=True, lean=['CoreBGP.Props.C01', 'CoreBGP.Props.C09Tie', 'CoreBGP.Props.PathTieC01', 'CoreBGP.Props.C20', 'CoreBGP.Props.PathTiePeer'],
         rule='registry sequences through the real Server (L0 `reg`, incl. IPv4-mapped peer addresses: a second AddPeer of a present key is refused, so there is one peer manager per configured peer); union of the live families in which sessions come and go (collision grid + forced windows, state x message table, shutdown at every point, reconnection fault sequences): every trace must be a trace of the L2 transition system (state-set tracking) and pass the plugin-history monitor (prefix of (E+E-(H+H-)*C+C-)*, complete at Close/DeletePeer, GetCapabilities / OnOpenMessage counts)',
